@@ -23,6 +23,25 @@ from .export import OutOfDomain, ctx_json
 _export.BIG_OK = True
 from .export_prog import Unsupported, export_program, value_json
 
+# The real code hands any precision to MPFR, and GNU MP ABORTS THE PROCESS when it cannot allocate (MPFloatContext(2 ** 53 + 1) asks for
+# a petabyte).  A harness that runs thousands of generated programs in its own process must survive that: precisions the sandbox cannot
+# serve become a Python MemoryError, which is then the (recorded) outcome of that run.
+def _guard_mpfr():
+    import fpy2.number.gmputils as G
+    if getattr(G, '_verif_guarded', False):
+        return
+    orig = G._mpfr_call_with_prec
+
+    def guarded(prec, fn, args):
+        if prec > 4_000_000:
+            raise MemoryError(f'MPFR precision {prec} is beyond what this harness lets the process try')
+        return orig(prec, fn, args)
+    G._mpfr_call_with_prec = guarded
+    G._verif_guarded = True
+
+
+_guard_mpfr()
+
 SCALARS = [0.0, -0.0, 1.0, 1.5, -1.25, 7.0, 0.375, float('inf'), float('nan'), Fraction(1, 3), 3, 2 ** 53 + 1]
 LISTS = [[], [1.0], [0.5, 2.0], [1.5, -0.75, 3.0], [float('nan'), 1.0], [2.0, 2.0, 2.0, 0.25]]
 
